@@ -21,8 +21,10 @@ def gen_meas_table(R, ctx):
     base = [R.randrange(R.choice([2, 4, 8])) for _ in range(n)]
     cols, styles = [], []
     for j in range(ncols):
-        st = R.choice(["cat", "fn", "cont", "cat30", "const", "nullcat"])
-        if st == "cat": k = R.choice([2, 5, 8]); v = [float(R.randrange(k)) for _ in range(n)]
+        st = R.choice(["cat", "fn", "cont", "cat30", "const", "nullcat", "deep"])
+        if st == "deep":      # four codes in two far-apart pairs of neighbours: separating them needs a tree some thirty levels deep (the precision limit matters)
+            v = [R.choice([1e9, 1e9 + 1, 2e9, 2e9 + 1]) for _ in range(n)]
+        elif st == "cat": k = R.choice([2, 5, 8]); v = [float(R.randrange(k)) for _ in range(n)]
         elif st == "fn": v = [float((b * 3 + 1) % 11) for b in base]
         elif st == "cont": v = [R.random() * 0.9999 for _ in range(n)]
         elif st == "cat30": v = [float(R.randrange(30)) for _ in range(n)]
@@ -42,14 +44,17 @@ def gen_meas_table(R, ctx):
         cols.append(v); styles.append(st)
     # most tables share one salt (and the column names c0, c1, ...): what is measured on one forest must not leak into the next
     ap = AnonymizationParams(salt=b"meas-one" if R.random() < 0.6 else R.getrandbits(64).to_bytes(8, "little"))
-    return {"names": [f"c{j}" for j in range(ncols)], "cols": cols, "styles": styles, "pids": None, "pid_mode": "unique", "ap": ap, "bp": BucketizationParams(), "n": n}
+    return {"names": [f"c{j}" for j in range(ncols)], "cols": cols, "styles": styles, "pids": None, "pid_mode": "unique", "ap": ap,
+            # mostly the default bucketization; sometimes a precision limit that bites (row limit rows/10 .. rows/50 beyond depth 3 or 15 - for 1-column trees only)
+            "bp": BucketizationParams() if R.random() < 0.65 else BucketizationParams(precision_limit_row_fraction=R.choice([10, 50]), precision_limit_depth_threshold=R.choice([3, 15])),
+            "n": n}
 
 
 def stream_meas(ctx, built, ntables):
     from syndiffix.clustering.measures import measure_all
     R = ctx.rng
     S = ctx.stream("S-meas", "measure_all(forest) on tables of 300..3000 rows x 2-4 columns (categories 2..30, functional dependence, continuous, constant, "
-                   "nulls), default parameters, random salts: entropies and dependency matrix bit-exact; non-trivial = some off-diagonal entry > 0")
+                   "nulls, far-apart pairs of neighbouring codes), default parameters or a precision limit that bites, random salts: entropies and dependency matrix bit-exact; non-trivial = some off-diagonal entry > 0")
     for _ in range(ntables):
         t = gen_meas_table(R, ctx)
         F, kind = TS.build_real(t)
@@ -139,6 +144,17 @@ def stream_ranking(ctx, built=False):
             fp = "ranking-rare-extreme-group-released" if (agrees or (agrees is None and max(sizes) >= 3)) else "ranking"
             ctx.oracle_fail(f"one-to-one affine function of a column with two groups of rare extreme codes (sizes {sizes}) scores dependence {d2:.3f} < 0.6 "
                             f"(k={k}, n={n})", rec, fp)
+        # an independent pair in which the first column carries a few rare far-away codes (two rows each) as the FIRST rows of the table: they are folded into
+        # the edge of the flattened 1-column tree and are the first rows the 2-column tree sees
+        a3 = [float(x) for x in a]; r = 0
+        for val in R.sample([900.0, 5000.0, -700.0, 40000.0], 2):
+            a3[r] = val; a3[r + 1] = val; r += 2
+        t3 = {"names": ["x", "y"], "cols": [a3, [float(R.randrange(k)) for _ in range(n)]], "styles": ["cat+rare-first", "cat"], "pids": None, "pid_mode": "unique",
+              "ap": AnonymizationParams(salt=R.getrandbits(64).to_bytes(8, "little")), "bp": BucketizationParams(), "n": n}
+        F3, _ = TS.build_real(t3)
+        d3 = float(measure_all(F3).dependency_matrix[0, 1]); rec["dep(a with rare first rows, indep)"] = round(d3, 3)
+        if d3 > 0.25:
+            ctx.oracle_fail(f"independent column scores dependence {d3:.3f} > 0.25 with a {k}-category column whose first rows are rare far-away codes (n={n})", rec, "ranking")
         if dm[0, 1] < 0.6:
             ctx.oracle_fail(f"one-to-one function scores dependence {dm[0,1]:.3f} < 0.6 (k={k}, n={n})", rec,
                             rank_fp(dm[0, 1], k))
